@@ -34,7 +34,7 @@ BUDGET = {
 }
 FLOORS = {"merged": (800, 20000)}
 
-ZOO_NAMES = schemas.GROUP_V + schemas.MARK_VARIANTS
+ZOO_NAMES = schemas.GROUP_V + schemas.MARK_VARIANTS + ["inline_box"]
 
 
 def _apply_desc(lib, doc_node, desc):  # noqa: ANN001, ANN202
